@@ -184,6 +184,35 @@ def _check_one(cfgs, t, r, fails, name_filter=None):
                 return
 
 
+CLI_DOCS = ["    Title\n    =====\n\n    Some *text*.\n", "  - a\n  - b\n\n    c\n", "   # h\n\n   para\n   more\n", "\tcode\n\n\tmore\n", " a  \n b\n",
+            "> q\n> r\n\n```\nc\n```\n", "a\n\nb\n"]
+
+
+def _cli_stdin(ctx, r, fails):
+    import subprocess
+    from common import PY, impl_env
+
+    def run(data):
+        try:
+            p = subprocess.run([PY, "-m", "mistune"], input=data, stdout=subprocess.PIPE, stderr=subprocess.PIPE, timeout=60,
+                               env=impl_env({"PYTHONIOENCODING": "utf-8"}))
+            return p.stdout.decode("utf-8", "replace") if p.returncode == 0 else "EXIT:%d:%s" % (p.returncode, p.stderr.decode("utf-8", "replace")[-200:])
+        except subprocess.TimeoutExpired:
+            return "TIMEOUT"
+    docs = CLI_DOCS + [d for d in gen_docs.mixed_stream(r, ctx.n(12, 150), plugins=["table", "footnotes"]) if "\r" not in d and d.strip()]
+    n = 0
+    for t in docs:
+        base = run((t + ("" if t.endswith("\n") else "\n")).encode("utf-8", "replace"))
+        for how in ("crlf", "cr", "mixed") + (() if t.endswith("\n") else ("final",)):
+            v = t if how == "final" else _vary(r, t, how)
+            got = run(v.encode("utf-8", "replace"))
+            n += 1
+            if got != base:
+                fails.append({"input": t, "variant": v, "how": how, "config": "cli|stdin", "expected": base[:500], "got": got[:500]})
+                return n
+    return n
+
+
 def oracle(ctx, extra):
     m = ctx.mistune
     cfgs = _configs(m)
@@ -204,8 +233,11 @@ def oracle(ctx, extra):
         _check_one(cfgs, t, r, fails)
         if len(fails) >= 5:
             break
-    # None == "" and empty HTML
     ev = len(docs)
+    # the command-line tool reading the document from a pipe is a conversion entry point as well
+    if len(fails) < 5:
+        ev += _cli_stdin(ctx, r, fails)
+    # None == "" and empty HTML
     for name, md in cfgs:
         if "|" in name:
             continue
@@ -219,7 +251,7 @@ def oracle(ctx, extra):
             fails.append({"input": None, "config": name, "expected": b, "got": a, "how": "none"})
     return {"evaluations": ev * 4, "distinct_nontrivial": nontriv, "failures": fails,
             "rule": "LF documents (70% structured markdown incl. all plugins, 15% mutated, 15% noise; a third without final "
-                    "newline; 14 empty or white-space-only documents; 10% documents with wide white space at the borders of block text) x {CRLF, CR, unambiguous mixed, +final newline} x 6 converters (+ the parse() and read() entry points, + the shortcut mistune.markdown() with the html, ast, rst and markdown renderers); non-trivial = has a line "
+                    "newline; 14 empty or white-space-only documents; 10% documents with wide white space at the borders of block text) x {CRLF, CR, unambiguous mixed, +final newline} x 6 converters (+ the parse() and read() entry points, + the shortcut mistune.markdown() with the html, ast, rst and markdown renderers; + python -m mistune reading documents, among them ones with a common left margin, from a pipe as bytes); non-trivial = has a line "
                     "ending to vary or lacks the final newline; distinct by text",
             "samples": [json.dumps(d) for d in docs[:4]]}
 
@@ -227,6 +259,14 @@ def oracle(ctx, extra):
 def replay(ctx, case):
     c = case.get("case", case)
     m = ctx.mistune
+    if c.get("config") == "cli|stdin":
+        import subprocess
+        from common import PY, impl_env
+        run = lambda data: subprocess.run([PY, "-m", "mistune"], input=data.encode("utf-8", "replace"), stdout=subprocess.PIPE, stderr=subprocess.PIPE,  # noqa: E731
+                                          timeout=60, env=impl_env({"PYTHONIOENCODING": "utf-8"})).stdout.decode("utf-8", "replace")
+        t = c["input"]
+        a, b = run(t + ("" if t.endswith("\n") else "\n")), run(c["variant"])
+        return None if a == b else {"expected": a, "got": b}
     for name, md in _configs(m):
         if name != c.get("config"):
             continue
